@@ -46,6 +46,9 @@ func DrawCfg(t *rapid.T, plainBias int, rss []int) world.Cfg {
 // constructed, not filtered for.
 type Gen struct {
 	Comps    []string
+	// SuffixNames: the components include names ending in the pipeline suffix
+	SuffixNames bool
+	suffixed    string
 	Weights  map[string]int
 	MaxSize  int
 	RS       int
@@ -303,6 +306,9 @@ func (g *Gen) draw1(t *rapid.T, mr *MRunner) Step {
 		}
 	case "remove", "removeall", "stat", "chmod", "chown", "chtimes", "arch_delete", "arch_restore":
 		s.Path = g.anyPath(t, m)
+		if (op == "chmod" || op == "chown" || op == "chtimes" || op == "stat") && rapid.IntRange(0, 11).Draw(t, "root-operand") == 0 {
+			s.Path = "/" // the root directory is an entry with attributes of its own
+		}
 		s.Perm = g.perm(t)
 		if op == "chown" {
 			s.UID = rapid.SampledFrom([]int{0, 1, 1000, 65534, 2097151, 2097152, 1<<31 - 1}).Draw(t, "uid")
@@ -329,7 +335,13 @@ func (g *Gen) draw1(t *rapid.T, mr *MRunner) Step {
 			s.Path = g.anyPath(t, m)
 		}
 		s.Path2 = g.anyPath(t, m)
-		if rapid.IntRange(0, 9).Draw(t, "into-own-subtree") == 0 {
+		if g.SuffixNames && rapid.Bool().Draw(t, "to-suffix-name") {
+			// a file (preferably) gets a name that ends in the pipeline's suffix
+			if p, ok := g.existing(t, m, "file"); ok {
+				s.Path = p
+			}
+			s.Path2 = path.Join(pick(t, g.dirs(m), "dir"), g.suffixed)
+		} else if rapid.IntRange(0, 9).Draw(t, "into-own-subtree") == 0 {
 			s.Path2 = path.Join(s.Path, g.comp(t))
 			if rapid.Bool().Draw(t, "deeper") {
 				s.Path2 = path.Join(s.Path2, g.comp(t))
@@ -368,4 +380,68 @@ func (g *Gen) draw1(t *rapid.T, mr *MRunner) Step {
 func (g *Gen) closeStep(t *rapid.T, mr *MRunner) Step {
 	u := usedSlots(mr)
 	return Step{Op: "close", Slot: rapid.SampledFrom(u).Draw(t, "slot")}
+}
+
+
+// PipelineSuffix is the suffix STFS appends to the tape name of a content record under cfg
+// (internal/suffix); names that already end in it are the edge the indexer's stripping rule
+// has to get right.
+func PipelineSuffix(cfg world.Cfg) (comp, enc string) {
+	switch cfg.Compression {
+	case "gzip", "parallelgzip":
+		comp = ".gz"
+	case "lz4":
+		comp = ".lz4"
+	case "zstandard":
+		comp = ".zst"
+	case "brotli":
+		comp = ".br"
+	case "bzip2", "parallelbzip2":
+		comp = ".bz2"
+	}
+	switch cfg.Encryption {
+	case "age":
+		enc = ".age"
+	case "pgp":
+		enc = ".pgp"
+	}
+	return
+}
+
+// SuffixComps are name components that end in the whole or a part of cfg's pipeline suffix,
+// plus their common stem (so that the stripped name exists as a sibling).
+func SuffixComps(cfg world.Cfg) []string {
+	comp, enc := PipelineSuffix(cfg)
+	if comp+enc == "" {
+		return nil
+	}
+	out := []string{"s", "s" + comp + enc}
+	if comp != "" && enc != "" {
+		out = append(out, "s"+comp, "s"+enc)
+	}
+	return out
+}
+
+// WithSuffixNames makes a third of the cases under a pipeline with a suffix use names that
+// end in (a part of) that suffix next to their stem: two of the case's components are
+// replaced (or added when the case has fewer than three).
+func (g *Gen) WithSuffixNames(t *rapid.T, cfg world.Cfg) *Gen {
+	sc := SuffixComps(cfg)
+	if len(sc) == 0 || rapid.IntRange(0, 2).Draw(t, "suffixnames") != 0 {
+		return g
+	}
+	pick := []string{sc[0], sc[1+rapid.IntRange(0, len(sc)-2).Draw(t, "suffixname")]}
+	if rapid.IntRange(0, 2).Draw(t, "suffix_nostem") == 0 {
+		pick = pick[1:]
+	}
+	for i, n := range pick {
+		if len(g.Comps) >= 3 {
+			g.Comps[len(g.Comps)-1-i] = n
+		} else {
+			g.Comps = append(g.Comps, n)
+		}
+	}
+	g.SuffixNames = true
+	g.suffixed = pick[len(pick)-1]
+	return g
 }
